@@ -79,12 +79,16 @@ def c03(chk):
                        "fair closure = all ordered pairs round-robin, no loss (a network that eventually delivers)"]
     base = G.consts(Features={"compact", "lose"}, Budgets={2, 99})
     if quick:
-        converge_model(chk, "C03-liveness", dict(base, MaxVer=3))
+        converge_model(chk, "C03-liveness", dict(base, MaxVer=2))
     else:
-        converge_model(chk, "C03-liveness", dict(base, MaxVer=4), timeout=2400)
-        converge_model(chk, "C03-liveness-3nodes",
-                       dict(base, Node={"a", "b", "c"}, Key={"k1"}, Val={"x"}, MaxVer=2, Writers={"a", "c"},
-                            Budgets={2, 99}), timeout=2400)
+        # (strong fairness of the rounds makes the liveness check expensive: bounds fitted to minutes)
+        converge_model(chk, "C03-liveness", dict(base, MaxVer=3), timeout=2400)
+        converge_model(chk, "C03-liveness-3nodes-relay",
+                       dict(G.consts(Features={"lose"}, Budgets={2, 99}), Node={"a", "b", "c"}, Key={"k1"},
+                            Val={"x"}, MaxVer=1, Writers={"c"}), timeout=2400)
+        converge_model(chk, "C03-liveness-3nodes-two-writers",
+                       dict(G.consts(Features=set(), Budgets={99}), Node={"a", "b", "c"}, Key={"k1"},
+                            Val={"x"}, MaxVer=1, Writers={"a", "c"}), timeout=2400)
     sched = {"nodes": ["a", "b", "c", "d"], "initKnown": True, "walks": 250 if quick else 4000,
              "depth": 60, "keys": ["k1", "k2", "k3", "a-much-longer-key-name-to-vary-sizes"],
              "vals": ["", "x", "y", "a-longer-value-to-vary-entry-sizes", "z" * 300],
